@@ -175,6 +175,20 @@ CLAIMED = {
             'tolerances 1e-6 relative as stated by the property (measured '
             'head-room: three decades).',
             'DESIGN.md section 5, C06'),
+    'C07': ('exploration',
+            'Hypothesis property test with an absolute oracle: astropy sky '
+            'offsets (directional_offset_by) pushed through the WCS must land '
+            'on the pixel shape\'s boundary, on the right axis; sizes vs a '
+            'finite-difference pixel scale',
+            'Random search over circle/ellipse/rectangle/annulus sky regions x '
+            'conformal WCS family (TAN/SIN, any rotation, 1e-5..1e-2 deg/px, '
+            'ICRS/FK5/Galactic) x region frame equal to or different from the '
+            'WCS frame. Catches orientation errors that cancel in a round trip '
+            '(both signs flipped; arctan2 arguments swapped).',
+            'astropy.coordinates spherical offsets and astropy.wcs are the '
+            'trusted base; tolerance 1e-6 + 3 phi^2 + 3 sigma^2 justified by '
+            'the projection geometry.',
+            'DESIGN.md section 5, C07'),
 }
 
 PENDING_REASON = ('check designed (DESIGN.md section 5) but not yet built and '
